@@ -1,14 +1,27 @@
 //! Engine `lair` (C08): the real `whale_lair` contract wired to the real `fee_distributor`
 //! (no epoch is ever created, so the lair's two distributor guards pass) inside a cw-multi-test
-//! `App`, driven by histories of bond / unbond / withdraw / update_config calls of 4 users + owner
-//! over 2 whitelisted denoms and one non-whitelisted denom.  Op lines are
+//! `App`, driven by histories of bond / unbond / withdraw / update_config / migrate calls and plain bank
+//! transfers of 4 users + owner over 2 whitelisted denoms and one non-whitelisted denom.  Op lines are
 //! `<op> <height> <time_ns> <sender> <args…>` with ops `bond <denom|@token> <amount> <-|denom:amt,…>`,
-//! `unbond <denom|@token> <amount>`, `withdraw <denom>`, `config <period|-> <rate|->`, `setguard <0|1>`.
+//! `unbond <denom|@token> <amount> [+coins]`, `withdraw <denom> [+coins]`, `config <period|-> <rate|-> [+coins]`,
+//! `send <coins>`, `migrate from=<x.y.z>[L]`, `setguard <0|1>`.
+//! `+coins` (`+denom:amt[,denom:amt…]`) = `info.funds` of a message that does not ask for any (the
+//! whitelisted denom of the op, the other whitelisted denom, the non-whitelisted denom, several coins;
+//! amounts 1 / small / equal to the record about to be paid or the amount unbonded / the whole wallet /
+//! more than held / zero); `send` = a plain `BankMsg::Send` to the lair.
+//! `migrate`: the stored cw2 version is first rewritten in the chain's raw storage (`App::init_modules`;
+//! `L`: the `config` item is rewritten in the 0.8.x layout, without `fee_distributor_addr`, as well), then
+//! the sender (the owner is the wasm admin) sends `migrate` with the same code id.
 //! `setguard 0` points the lair at a
 //! harness-local stub distributor that reports a claimable epoch (guards fail), `setguard 1` back.
 //!
-//! Observation after every op: outcome, Config, TotalBonded, GlobalIndex, contract bank balances,
-//! and per user the Bonded / Weight / Unbonding (all pages) / Withdrawable queries and bank balances.
+//! Observation after every op: outcome, Config (period, rate, owner, bonding assets, fee distributor),
+//! TotalBonded, GlobalIndex (timestamp, weight, bonded amount, bonded assets), contract bank balances,
+//! and per address — the users and an address that never bonds or sends anything — the Bonded / Weight /
+//! Unbonding / Withdrawable queries for every denom incl. the non-whitelisted one, and bank balances.
+//! `Unbonding` is walked to the end with the maximum page size AND with the default one (`limit: None`,
+//! `start_after` = last key), read with a limit above the maximum, after the middle record, and with
+//! `start_after = middle − 1, limit 1`.
 //! The C08 monitors evaluate the property's clauses on these real observations only.
 use crate::common::*;
 use cosmwasm_std::{
@@ -21,7 +34,7 @@ use white_whale_std::epoch_manager::epoch_manager::EpochConfig;
 use white_whale_std::fee_distributor as fd;
 use white_whale_std::pool_network::asset::{Asset, AssetInfo};
 use white_whale_std::whale_lair::{
-    BondedResponse, BondingWeightResponse, Config, ExecuteMsg, GlobalIndex, InstantiateMsg, QueryMsg,
+    BondedResponse, BondingWeightResponse, Config, ExecuteMsg, GlobalIndex, InstantiateMsg, MigrateMsg, QueryMsg,
     UnbondingResponse, WithdrawableResponse,
 };
 
@@ -62,14 +75,42 @@ fn stub_query(deps: Deps, _e: Env, msg: fd::QueryMsg) -> StdResult<Binary> {
 // ------------------------------------------------------------------------------------------------
 // observation snapshot (parsed form of what the queries returned; used by the monitors)
 // ------------------------------------------------------------------------------------------------
+/// one page of the `Unbonding` query: its records and the `total_amount` it reported
+#[derive(Clone, Default, PartialEq, Debug)]
+struct Page {
+    recs: Vec<(u64, u128)>,
+    total: u128,
+}
+
+/// the extra reads of `Unbonding` for one (address, denom) that has records
+#[derive(Clone, Default, PartialEq, Debug)]
+struct Pages {
+    /// `start_after: None, limit: None`
+    p0: Page,
+    /// `start_after: None, limit: Some(255)`
+    pm: Page,
+    /// `start_after: Some(middle record's key), limit: None`
+    pa: Page,
+    /// `start_after: Some(middle − 1), limit: Some(1)` (empty when the middle key is 0)
+    pb: Page,
+    /// walk with `limit: None`: all records, Σ of the reported totals
+    walk: Page,
+}
+
 #[derive(Clone, Default, PartialEq, Debug)]
 struct Snap {
     period: u64,
     rate: u128,
+    owner: String,
+    assets: Vec<String>,
+    /// `Config.fee_distributor_addr`, raw
+    fd: String,
     total_bonded: u128,
     total_assets: Vec<(String, u128)>,
     g_ts: u64,
     g_weight: u128,
+    g_bonded: u128,
+    g_assets: Vec<(String, u128)>,
     /// contract bank balance per denom (all denoms)
     cbal: BTreeMap<String, u128>,
     /// Bonded query per user: Some((total, first_epoch, assets)) or None when the query failed
@@ -78,6 +119,7 @@ struct Snap {
     /// Unbonding records per (user, denom): (ts, amount) ascending, and the reported totals summed over pages
     unb: BTreeMap<(String, String), Vec<(u64, u128)>>,
     unb_total: BTreeMap<(String, String), u128>,
+    pages: BTreeMap<(String, String), Pages>,
     /// Withdrawable per (user, denom): Ok(amount) / Err("err"|"panic")
     wd: BTreeMap<(String, String), Result<u128, String>>,
     ubal: BTreeMap<(String, String), u128>,
@@ -86,6 +128,7 @@ struct Snap {
 struct World {
     app: App,
     lair: Addr,
+    lair_code: u64,
     real_dist: Addr,
     stub_dist: Addr,
 }
@@ -102,8 +145,13 @@ struct CaseCfg {
     owner: String,
     denoms: Vec<String>,
     extra: Vec<String>,
+    /// addresses that are observed only: they never send anything and hold nothing
+    watch: Vec<String>,
 }
 impl CaseCfg {
+    fn addrs(&self) -> Vec<String> {
+        self.users.iter().chain(self.watch.iter()).cloned().collect()
+    }
     fn all_denoms(&self) -> Vec<String> {
         let mut v: Vec<String> = self.denoms.iter().chain(self.extra.iter()).cloned().collect();
         v.sort();
@@ -124,6 +172,34 @@ pub struct Lair {
     malformed_heavy: bool,
     many_unbonds: bool,
     guard_off: bool,
+    /// crate version of the lair (the cw2 item of the freshly instantiated contract)
+    cur: (u64, u64, u64),
+    /// ledger of the coins the lair received without a bond, rebuilt from what the op lines attached to
+    /// operations the real contract accepted: per denom, and per (sender, denom)
+    stray: BTreeMap<String, u128>,
+    given: BTreeMap<(String, String), u128>,
+}
+
+fn parse_ver(v: &str) -> Option<(u64, u64, u64)> {
+    let p: Vec<&str> = v.split('.').collect();
+    if p.len() != 3 {
+        return None;
+    }
+    Some((p[0].parse().ok()?, p[1].parse().ok()?, p[2].parse().ok()?))
+}
+
+/// `denom:amt[,denom:amt…]`
+fn parse_coins(f: &str) -> Option<Vec<Coin>> {
+    let mut v = vec![];
+    for c in f.split(',') {
+        let (d, a) = c.split_once(':')?;
+        v.push(coin(a.parse::<u128>().ok()?, d));
+    }
+    Some(v)
+}
+
+fn coins_of(v: &[Coin], d: &str) -> u128 {
+    v.iter().filter(|c| c.denom == d).fold(0u128, |a, c| a.saturating_add(c.amount.u128()))
 }
 
 fn native(d: &str, a: u128) -> Asset {
@@ -145,11 +221,10 @@ impl Lair {
         b.time = Timestamp::from_nanos(c.start);
         b.height = 1;
         app.set_block(b);
-        let lair_code = app.store_code(Box::new(ContractWrapper::new(
-            whale_lair::contract::execute,
-            whale_lair::contract::instantiate,
-            whale_lair::contract::query,
-        )));
+        let lair_code = app.store_code(Box::new(
+            ContractWrapper::new(whale_lair::contract::execute, whale_lair::contract::instantiate, whale_lair::contract::query)
+                .with_migrate(whale_lair::contract::migrate),
+        ));
         let dist_code = app.store_code(Box::new(
             ContractWrapper::new(
                 fee_distributor::contract::execute,
@@ -171,7 +246,8 @@ impl Lair {
                 },
                 &[],
                 "lair",
-                None,
+                // the owner is the wasm admin: the only address the chain lets migrate the contract
+                Some(owner.to_string()),
             )
             .map_err(|e| format!("{e:?}"))?;
         let ec = EpochConfig { duration: Uint64::new(c.dur), genesis_epoch: Uint64::new(c.genesis) };
@@ -204,8 +280,70 @@ impl Lair {
             &[],
         )
         .map_err(|e| format!("{e:?}"))?;
-        self.w = Some(World { app, lair, real_dist, stub_dist });
+        self.w = Some(World { app, lair, lair_code, real_dist, stub_dist });
+        self.cur = self.stored_version().and_then(|v| parse_ver(&v)).ok_or("no cw2 version")?;
         Ok(())
+    }
+
+    // ---------------------------------------------------------------------------------- raw storage
+    fn raw_get(&self, key: &[u8]) -> Option<Vec<u8>> {
+        let w = self.w.as_ref()?;
+        w.app.dump_wasm_raw(&w.lair).into_iter().find(|(k, _)| k.as_slice() == key).map(|(_, v)| v)
+    }
+    /// Writes one item of the lair's raw storage from outside any contract (nothing the contract offers can
+    /// lower its cw2 version or bring back an older layout).  cw-multi-test keeps a contract's storage under
+    /// the length-prefixed namespaces `wasm` / `contract_data/<addr>`; verified by reading the item back.
+    fn raw_set(&mut self, key: &[u8], value: &[u8]) -> bool {
+        let w = self.w.as_mut().unwrap();
+        let mut full = vec![];
+        for ns in [b"wasm".as_slice(), format!("contract_data/{}", w.lair).as_bytes()] {
+            full.extend_from_slice(&(ns.len() as u16).to_be_bytes());
+            full.extend_from_slice(ns);
+        }
+        full.extend_from_slice(key);
+        w.app.init_modules(|_, _, storage| storage.set(&full, value));
+        self.raw_get(key).as_deref() == Some(value)
+    }
+    fn stored_version(&self) -> Option<String> {
+        let v: serde_json::Value = serde_json::from_slice(&self.raw_get(b"contract_info")?).ok()?;
+        Some(v.get("version")?.as_str()?.to_string())
+    }
+    /// "the contract was deployed by release `from`": the stored cw2 version becomes `from`; `legacy`: the
+    /// `config` item is rewritten in the layout of the 0.8.x releases (`ConfigV080` of migrations.rs: no
+    /// `fee_distributor_addr`), every other value carried over
+    fn arrange_release(&mut self, from: &str, legacy: bool) -> bool {
+        let name = match self.raw_get(b"contract_info").and_then(|r| serde_json::from_slice::<serde_json::Value>(&r).ok()) {
+            Some(v) => v.get("contract").and_then(|x| x.as_str()).unwrap_or("").to_string(),
+            None => return false,
+        };
+        let info = serde_json::json!({ "contract": name, "version": from });
+        if !self.raw_set(b"contract_info", &serde_json::to_vec(&info).unwrap()) {
+            return false;
+        }
+        if legacy {
+            let mut c: serde_json::Value = match self.raw_get(b"config").and_then(|r| serde_json::from_slice(&r).ok()) {
+                Some(c) => c,
+                None => return false,
+            };
+            match c.as_object_mut() {
+                Some(o) => {
+                    o.remove("fee_distributor_addr");
+                }
+                None => return false,
+            }
+            return self.raw_set(b"config", &serde_json::to_vec(&c).unwrap());
+        }
+        true
+    }
+
+    fn page(&self, u: &str, d: &str, start_after: Option<u64>, limit: Option<u8>) -> Option<Page> {
+        match self.q::<UnbondingResponse>(&QueryMsg::Unbonding { address: u.into(), denom: d.into(), start_after, limit }) {
+            Outcome::Ok(r) => Some(Page {
+                recs: r.unbonding_requests.iter().map(|b| (b.timestamp.nanos(), b.asset.amount.u128())).collect(),
+                total: r.total_amount.u128(),
+            }),
+            _ => None,
+        }
     }
 
     fn set_time(&mut self, height: u64, t: u64) {
@@ -229,6 +367,9 @@ impl Lair {
         if let Outcome::Ok(cf) = self.q::<Config>(&QueryMsg::Config {}) {
             s.period = cf.unbonding_period.u64();
             s.rate = cf.growth_rate.atomics().u128();
+            s.owner = cf.owner.to_string();
+            s.assets = cf.bonding_assets.iter().map(|a| a.to_string()).collect();
+            s.fd = cf.fee_distributor_addr.to_string();
         }
         if let Outcome::Ok(t) = self.q::<BondedResponse>(&QueryMsg::TotalBonded {}) {
             s.total_bonded = t.total_bonded.u128();
@@ -237,12 +378,14 @@ impl Lair {
         if let Outcome::Ok(g) = self.q::<GlobalIndex>(&QueryMsg::GlobalIndex {}) {
             s.g_ts = g.timestamp.nanos();
             s.g_weight = g.weight.u128();
+            s.g_bonded = g.bonded_amount.u128();
+            s.g_assets = g.bonded_assets.iter().map(|a| (a.info.to_string(), a.amount.u128())).collect();
         }
         for d in &all {
             let b = w.app.wrap().query_balance(w.lair.clone(), d.clone()).map(|c| c.amount.u128()).unwrap_or(0);
             s.cbal.insert(d.clone(), b);
         }
-        for u in &c.users {
+        for u in &c.addrs() {
             let b = match self.q::<BondedResponse>(&QueryMsg::Bonded { address: u.clone() }) {
                 Outcome::Ok(b) => Some((
                     b.total_bonded.u128(),
@@ -289,6 +432,35 @@ impl Lair {
                         _ => break,
                     }
                 }
+                if !recs.is_empty() {
+                    // the other ways of reading the same list
+                    let mid = recs[(recs.len() - 1) / 2].0;
+                    let mut walk = Page::default();
+                    let mut sa: Option<u64> = None;
+                    let dflt = gen_const("LAIR_DEFAULT_PAGE_LIMIT") as usize;
+                    for _ in 0..=recs.len() {
+                        match self.page(u, d, sa, None) {
+                            Some(p) => {
+                                let n = p.recs.len();
+                                walk.total = walk.total.saturating_add(p.total);
+                                walk.recs.extend(p.recs);
+                                if n < dflt {
+                                    break;
+                                }
+                                sa = walk.recs.last().map(|x| x.0);
+                            }
+                            None => break,
+                        }
+                    }
+                    let pg = Pages {
+                        p0: self.page(u, d, None, None).unwrap_or_default(),
+                        pm: self.page(u, d, None, Some(255)).unwrap_or_default(),
+                        pa: self.page(u, d, Some(mid), None).unwrap_or_default(),
+                        pb: if mid == 0 { Page::default() } else { self.page(u, d, Some(mid - 1), Some(1)).unwrap_or_default() },
+                        walk,
+                    };
+                    s.pages.insert((u.clone(), d.clone()), pg);
+                }
                 s.unb.insert((u.clone(), d.clone()), recs);
                 s.unb_total.insert((u.clone(), d.clone()), total);
                 let wd = match self.q::<WithdrawableResponse>(&QueryMsg::Withdrawable { address: u.clone(), denom: d.clone() }) {
@@ -314,16 +486,26 @@ impl Lair {
                 l.iter().map(|(d, a)| format!("{d}:{a}")).collect::<Vec<_>>().join(",")
             }
         };
+        let w = self.w.as_ref().unwrap();
+        let fd = if s.fd.is_empty() {
+            "empty".to_string()
+        } else if s.fd == w.real_dist.as_str() {
+            "real".to_string()
+        } else if s.fd == w.stub_dist.as_str() {
+            "stub".to_string()
+        } else {
+            format!("other:{}", s.fd)
+        };
         let mut t: Vec<String> = vec![
             outcome.into(),
-            format!("P={}/{}", s.period, s.rate),
+            format!("P={}/{}/{}/{}/{}", s.period, s.rate, s.owner, if s.assets.is_empty() { "-".to_string() } else { s.assets.join(",") }, fd),
             format!("T={}/{}", s.total_bonded, assets(&s.total_assets)),
-            format!("G={}/{}", s.g_ts, s.g_weight),
+            format!("G={}/{}/{}/{}", s.g_ts, s.g_weight, s.g_bonded, assets(&s.g_assets)),
         ];
         for d in &all {
             t.push(format!("C.{d}={}", s.cbal[d]));
         }
-        for u in &c.users {
+        for u in &c.addrs() {
             t.push(match &s.bonded[u] {
                 Some((tot, fe, l)) => format!("B.{u}={tot}/{fe}/{}", assets(l)),
                 None => format!("B.{u}=err"),
@@ -338,6 +520,20 @@ impl Lair {
                     recs.iter().map(|(ts, a)| format!("{ts}:{a}")).collect::<Vec<_>>().join(",")
                 };
                 t.push(format!("U.{u}.{d}={}/{}", s.unb_total[&k], rl));
+                if let Some(pg) = s.pages.get(&k) {
+                    let ps = |p: &Page| format!("{}:{}", p.recs.len(), p.total);
+                    let first = |p: &Page| p.recs.first().map(|x| x.0).unwrap_or(0);
+                    t.push(format!(
+                        "V.{u}.{d}={}/{}/{}:{}/{}:{}/{}",
+                        ps(&pg.p0),
+                        ps(&pg.pm),
+                        ps(&pg.pa),
+                        first(&pg.pa),
+                        ps(&pg.pb),
+                        first(&pg.pb),
+                        ps(&pg.walk)
+                    ));
+                }
                 t.push(match &s.wd[&k] {
                     Ok(a) => format!("W.{u}.{d}={a}"),
                     Err(e) => format!("W.{u}.{d}={e}"),
@@ -351,67 +547,149 @@ impl Lair {
     // --------------------------------------------------------------------------------------------
     // monitors: the clauses of C08 on the real observations
     // --------------------------------------------------------------------------------------------
+    /// `Config.fee_distributor_addr` names a contract (the `Bonded` query of an address with a bond needs it)
+    fn fd_is_contract(&self, s: &Snap) -> bool {
+        let w = self.w.as_ref().unwrap();
+        s.fd == w.real_dist.as_str() || s.fd == w.stub_dist.as_str()
+    }
+
+    /// what the contract holds of `d` beyond what it reports as bonded and as pending unbondings
+    fn surplus(&self, s: &Snap, d: &str) -> Option<u128> {
+        let c = &self.cfg;
+        let reported = s.total_assets.iter().filter(|(x, _)| x == d).fold(0u128, |a, x| a.saturating_add(x.1));
+        let mut unb = 0u128;
+        for u in c.addrs() {
+            for r in s.unb.get(&(u.clone(), d.to_string())).map(|v| v.as_slice()).unwrap_or(&[]) {
+                unb = unb.checked_add(r.1)?;
+            }
+        }
+        s.cbal.get(d)?.checked_sub(reported.checked_add(unb)?)
+    }
+
     fn state_monitors(&self, mon: &mut Monitor, s: &Snap, line: &str) {
         let c = &self.cfg;
         let desc = |what: &str| format!("{what} after `{line}`");
-        // conservation: contract balance of each bonding asset = reported bonded + all pending unbondings
+        let fd_ok = self.fd_is_contract(s);
+        if !fd_ok {
+            mon.stat("obs_with_empty_fee_distributor_addr");
+        }
+        // conservation: contract balance of each denom = reported bonded + all pending unbondings + the coins it
+        // was sent without a bond (ledger rebuilt from what the accepted op lines attached)
+        for d in &c.all_denoms() {
+            let stray = self.stray.get(d).cloned().unwrap_or(0);
+            let sp = self.surplus(s, d);
+            mon.check("C08", "conservation", sp == Some(stray), || {
+                desc(&format!(
+                    "denom {d}: contract balance {} - bonded - unbonding = {sp:?}, stray coins received {stray}",
+                    s.cbal.get(d).cloned().unwrap_or(0)
+                ))
+            });
+            if stray > 0 {
+                mon.stat("obs_with_stray_coins_on_the_lair");
+            }
+        }
         for d in &c.denoms {
             let reported = s.total_assets.iter().find(|(x, _)| x == d).map(|x| x.1).unwrap_or(0);
-            let unb: u128 = c.users.iter().map(|u| s.unb[&(u.clone(), d.clone())].iter().map(|r| r.1).sum::<u128>()).sum();
-            let bal = s.cbal[d];
-            mon.check("C08", "conservation", bal == reported + unb, || {
-                desc(&format!("denom {d}: contract balance {bal} != bonded {reported} + unbonding {unb}"))
-            });
             // per denom: reported global = sum of the users' bonds
-            let users_sum: u128 = c
-                .users
-                .iter()
-                .map(|u| match &s.bonded[u] {
-                    Some((_, _, l)) => l.iter().filter(|(x, _)| x == d).map(|x| x.1).sum::<u128>(),
-                    None => 0,
-                })
-                .sum();
-            mon.check("C08", "global_eq_sum_users", reported == users_sum, || {
-                desc(&format!("denom {d}: TotalBonded asset {reported} != sum of users' Bonded {users_sum}"))
+            if fd_ok {
+                let users_sum: u128 = c
+                    .addrs()
+                    .iter()
+                    .map(|u| match &s.bonded[u] {
+                        Some((_, _, l)) => l.iter().filter(|(x, _)| x == d).fold(0u128, |a, x| a.saturating_add(x.1)),
+                        None => 0,
+                    })
+                    .fold(0u128, |a, x| a.saturating_add(x));
+                mon.check("C08", "global_eq_sum_users", reported == users_sum, || {
+                    desc(&format!("denom {d}: TotalBonded asset {reported} != sum of users' Bonded {users_sum}"))
+                });
+            }
+        }
+        if fd_ok {
+            let sum_tot: u128 = c.addrs().iter().map(|u| s.bonded[u].as_ref().map(|b| b.0).unwrap_or(0)).fold(0u128, |a, x| a.saturating_add(x));
+            mon.check("C08", "global_eq_sum_users", s.total_bonded == sum_tot, || {
+                desc(&format!("TotalBonded.total_bonded {} != sum of users' total_bonded {sum_tot}", s.total_bonded))
             });
         }
-        let sum_tot: u128 = c.users.iter().map(|u| s.bonded[u].as_ref().map(|b| b.0).unwrap_or(0)).sum();
-        mon.check("C08", "global_eq_sum_users", s.total_bonded == sum_tot, || {
-            desc(&format!("TotalBonded.total_bonded {} != sum of users' total_bonded {sum_tot}", s.total_bonded))
-        });
-        let sum_assets: u128 = s.total_assets.iter().map(|x| x.1).sum();
+        let sum_assets: u128 = s.total_assets.iter().fold(0u128, |a, x| a.saturating_add(x.1));
         mon.check("C08", "global_eq_sum_users", s.total_bonded == sum_assets, || {
             desc(&format!("TotalBonded.total_bonded {} != sum of bonded_assets {sum_assets}", s.total_bonded))
         });
-        // whitelist: nothing but whitelisted denoms is ever held, bonded or unbonding
+        // the two global queries are two views of one item
+        mon.check("C08", "global_index_eq_total_bonded", s.g_bonded == s.total_bonded && s.g_assets == s.total_assets, || {
+            desc(&format!("GlobalIndex {}/{:?} != TotalBonded {}/{:?}", s.g_bonded, s.g_assets, s.total_bonded, s.total_assets))
+        });
+        // whitelist: nothing but whitelisted denoms is ever bonded or unbonding (what the contract holds of another
+        // denom is stray coins: `conservation` above with bonded = unbonding = 0)
         for d in &c.extra {
-            let clean = s.cbal[d] == 0
-                && !s.total_assets.iter().any(|(x, _)| x == d)
-                && c.users.iter().all(|u| s.unb[&(u.clone(), d.clone())].is_empty());
-            mon.check("C08", "whitelist_only", clean, || desc(&format!("non-whitelisted denom {d} inside the contract")));
+            let clean = !s.total_assets.iter().any(|(x, _)| x == d)
+                && c.addrs().iter().all(|u| s.unb[&(u.clone(), d.clone())].is_empty())
+                && c.addrs().iter().all(|u| s.bonded[u].as_ref().map(|b| !b.2.iter().any(|(x, _)| x == d)).unwrap_or(true));
+            mon.check("C08", "whitelist_only", clean, || desc(&format!("non-whitelisted denom {d} bonded or unbonding")));
         }
         for (x, _) in &s.total_assets {
             mon.check("C08", "whitelist_only", c.denoms.contains(x), || desc(&format!("bonded asset {x} not whitelisted")));
         }
-        // every token is bonded, unbonding or back with its owner (no funds are ever sent to the contract
-        // other than through bond in these histories)
+        mon.check("C08", "whitelist_only", s.assets == c.denoms, || desc(&format!("Config.bonding_assets {:?} != instantiated {:?}", s.assets, c.denoms)));
+        // an address that never bonded or sent anything reports nothing
+        for u in &c.watch {
+            let nothing = s.bonded[u] == Some((0, 0, vec![]))
+                && c.all_denoms().iter().all(|d| {
+                    let k = (u.clone(), d.clone());
+                    s.unb[&k].is_empty() && s.unb_total[&k] == 0 && s.wd[&k] == Ok(0) && s.ubal[&k] == 0
+                });
+            mon.check("C08", "never_bonded_address_reports_nothing", nothing, || desc(&format!("{u}: {:?}", s.bonded[u])));
+        }
+        // every token is bonded, unbonding, back with its owner — or was sent to the contract unasked by that owner
         for u in &c.users {
             for d in c.all_denoms() {
                 let k = (u.clone(), d.clone());
-                let bonded = match &s.bonded[u] {
-                    Some((_, _, l)) => l.iter().filter(|(x, _)| *x == d).map(|x| x.1).sum::<u128>(),
-                    None => 0,
-                };
-                let unb: u128 = s.unb[&k].iter().map(|r| r.1).sum();
-                mon.check("C08", "user_tokens_conserved", s.ubal[&k] + bonded + unb == c.bal, || {
-                    desc(&format!("{u}/{d}: wallet {} + bonded {bonded} + unbonding {unb} != initial {}", s.ubal[&k], c.bal))
-                });
+                let unb: u128 = s.unb[&k].iter().fold(0u128, |a, r| a.saturating_add(r.1));
+                match &s.bonded[u] {
+                    None if !fd_ok => mon.stat("bonded_query_unreadable_without_fee_distributor"),
+                    b => {
+                        let bonded = match b {
+                            Some((_, _, l)) => l.iter().filter(|(x, _)| *x == d).fold(0u128, |a, x| a.saturating_add(x.1)),
+                            None => 0,
+                        };
+                        let given = self.given.get(&k).cloned().unwrap_or(0);
+                        let have = s.ubal[&k].checked_add(bonded).and_then(|x| x.checked_add(unb)).and_then(|x| x.checked_add(given));
+                        mon.check("C08", "user_tokens_conserved", have == Some(c.bal), || {
+                            desc(&format!(
+                                "{u}/{d}: wallet {} + bonded {bonded} + unbonding {unb} + sent unasked {given} != initial {}",
+                                s.ubal[&k], c.bal
+                            ))
+                        });
+                    }
+                }
                 // the Unbonding query's own total agrees with its records
                 mon.check("C08", "unbonding_total_eq_records", s.unb_total[&k] == unb, || {
                     desc(&format!("{u}/{d}: Unbonding.total_amount {} != sum of requests {unb}", s.unb_total[&k]))
                 });
-                // Withdrawable = exactly the matured records (among the first MAX_PAGE_LIMIT)
+                // … and every way of paging through it shows the same list
                 let recs = &s.unb[&k];
+                if let Some(pg) = s.pages.get(&k) {
+                    let dflt = gen_const("LAIR_DEFAULT_PAGE_LIMIT") as usize;
+                    let maxp = gen_const("LAIR_MAX_PAGE_LIMIT") as usize;
+                    let sum = |v: &[(u64, u128)]| v.iter().fold(0u128, |a, r| a.saturating_add(r.1));
+                    let mid = recs[(recs.len() - 1) / 2].0;
+                    let after: Vec<(u64, u128)> = recs.iter().filter(|r| r.0 > mid).cloned().collect();
+                    let ok = pg.walk.recs == *recs
+                        && pg.walk.total == unb
+                        && pg.p0.recs[..] == recs[..recs.len().min(dflt)]
+                        && pg.pm.recs[..] == recs[..recs.len().min(maxp)]
+                        && pg.pa.recs[..] == after[..after.len().min(dflt)]
+                        && (mid == 0 || pg.pb.recs[..] == recs[(recs.len() - 1) / 2..(recs.len() - 1) / 2 + 1])
+                        && [&pg.p0, &pg.pm, &pg.pa, &pg.pb].iter().all(|p| p.total == sum(&p.recs));
+                    mon.check("C08", "unbonding_pages_agree", ok, || desc(&format!("{u}/{d}: {} records; pages {pg:?}", recs.len())));
+                    if recs.len() > dflt {
+                        mon.stat("unbonding_read_beyond_default_page");
+                    }
+                    if recs.len() > maxp {
+                        mon.stat("unbonding_read_beyond_max_page");
+                    }
+                }
+                // Withdrawable = exactly the matured records (among the first MAX_PAGE_LIMIT)
                 if !recs.is_empty() {
                     let expect: Option<u128> = if self.now < s.period {
                         None
@@ -444,14 +722,46 @@ impl Lair {
         f
     }
 
+    /// every wallet and every contract balance moved by exactly the attached coins (sender → contract) and, for
+    /// `pay = (denom, amount)`, that amount from the contract to the sender
+    fn moved_only(&self, pre: &Snap, post: &Snap, sender: &str, att: &[Coin], pay: Option<(&str, u128)>) -> bool {
+        let c = &self.cfg;
+        for d in c.all_denoms() {
+            let a = coins_of(att, &d);
+            let p = match pay {
+                Some((pd, x)) if pd == d => x,
+                _ => 0,
+            };
+            if pre.cbal[&d].checked_add(a) != post.cbal[&d].checked_add(p) {
+                return false;
+            }
+            for u in c.addrs() {
+                let k = (u.clone(), d.clone());
+                let (a, p) = if u == sender { (a, p) } else { (0, 0) };
+                if pre.ubal[&k].checked_add(p) != post.ubal[&k].checked_add(a) {
+                    return false;
+                }
+            }
+        }
+        true
+    }
+
     #[allow(clippy::too_many_arguments)]
-    fn transition_monitors(&self, mon: &mut Monitor, pre: &Snap, post: &Snap, ok: bool, sender: &str, op: &[&str], line: &str) {
+    fn transition_monitors(&self, mon: &mut Monitor, pre: &Snap, post: &Snap, ok: bool, sender: &str, op: &[&str], att: &[Coin], line: &str) {
         let c = &self.cfg;
         let now = self.now;
         let desc = |what: &str| format!("{what} at `{line}`");
         if !ok {
             mon.check("C08", "failed_op_unchanged", Self::frame(pre) == Self::frame(post), || desc("failed call changed observable state"));
-            // a withdraw that the Withdrawable query announced (amount > 0) must not fail
+            // a refused operation moves nothing: the coins attached to it are back with the sender
+            mon.check("C08", "refused_op_moves_nothing", pre.cbal == post.cbal && pre.ubal == post.ubal, || {
+                desc(&format!("refused call moved tokens: contract {:?} -> {:?}", pre.cbal, post.cbal))
+            });
+            if !att.is_empty() && op[0] != "bond" {
+                mon.stat(&format!("refused_with_coins_attached:{}", op[0]));
+            }
+            // a withdraw that the Withdrawable query announced (amount > 0) must not fail — unless the bank could not
+            // deliver the attached coins
             if op[0] == "withdraw" {
                 let k = (sender.to_string(), op[1].to_string());
                 // Withdrawable as of this block time: recompute from the pre-state records
@@ -461,15 +771,40 @@ impl Lair {
                 } else {
                     recs.iter().take(30).filter(|r| r.0 as u128 + pre.period as u128 <= now as u128).map(|r| r.1).sum()
                 };
-                mon.check("C08", "matured_withdraw_succeeds", due == 0, || desc(&format!("withdraw of matured {due} failed")));
+                let deliverable = att.iter().any(|x| !x.amount.is_zero()) || att.is_empty();
+                let deliverable = deliverable
+                    && c.all_denoms().iter().all(|d| coins_of(att, d) <= pre.ubal.get(&(sender.to_string(), d.clone())).cloned().unwrap_or(0));
+                if deliverable {
+                    mon.check("C08", "matured_withdraw_succeeds", due == 0, || desc(&format!("withdraw of matured {due} failed")));
+                }
                 if recs.iter().any(|r| r.0 as u128 + pre.period as u128 == now as u128 + 1) {
                     mon.stat("withdraw_rejected_1ns_before_maturity");
                 }
             }
             return;
         }
+        // stray coins stay: per denom, what the contract holds beyond bonded + unbonding grows by exactly what this
+        // operation carried without bonding it — never by less, and no operation ever lowers it
+        let carried: &[Coin] = if op[0] == "bond" { &[] } else { att };
+        for d in c.all_denoms() {
+            let (a, b) = (self.surplus(pre, &d), self.surplus(post, &d));
+            let add = coins_of(carried, &d);
+            mon.check("C08", "stray_coins_stay", a.is_some() && b == a.and_then(|x| x.checked_add(add)), || {
+                desc(&format!("denom {d}: balance beyond bonded + unbonding {a:?} -> {b:?}, coins carried {add}"))
+            });
+            if add > 0 {
+                mon.stat(&format!(
+                    "stray_coins_accepted:{}:{}",
+                    op[0],
+                    if c.extra.contains(&d) { "non_whitelisted" } else if op.get(1) == Some(&d.as_str()) { "op_denom" } else { "whitelisted" }
+                ));
+            }
+        }
+        if carried.len() > 1 {
+            mon.stat("stray_coins_accepted:several_coins");
+        }
         // records may only change through their owner's own unbond (grow / appear at key now) or withdraw
-        for u in &c.users {
+        for u in &c.addrs() {
             for d in c.all_denoms() {
                 let k = (u.clone(), d.clone());
                 let (a, b) = (&pre.unb[&k], &post.unb[&k]);
@@ -478,10 +813,15 @@ impl Lair {
                     mon.check("C08", "only_owner", a == b, || desc(&format!("{u}/{d}: unbonding records changed by somebody else's call")));
                 }
                 if !(mine && op[0] == "withdraw") {
-                    mon.check("C08", "only_owner", pre.ubal[&k] <= post.ubal[&k] || (u == sender && op[0] == "bond"), || {
-                        desc(&format!("{u}/{d}: wallet decreased"))
+                    // a wallet only ever shrinks by its owner's own bond or by the coins its owner attached
+                    let out = if u == sender {
+                        coins_of(att, &d)
+                    } else {
+                        0
+                    };
+                    mon.check("C08", "only_owner", post.ubal[&k].checked_add(out) == Some(pre.ubal[&k]), || {
+                        desc(&format!("{u}/{d}: wallet {} -> {} (own funds sent {out})", pre.ubal[&k], post.ubal[&k]))
                     });
-                    mon.check("C08", "only_owner", post.ubal[&k] <= pre.ubal[&k], || desc(&format!("{u}/{d}: wallet increased without own withdraw")));
                 }
             }
         }
@@ -520,8 +860,8 @@ impl Lair {
                 mon.check(
                     "C08",
                     "unbond_enters_record",
-                    bonded(pre) == bonded(post) + x && pre.ubal == post.ubal && pre.cbal == post.cbal,
-                    || desc("unbond changed balances or did not decrease the bond by the amount"),
+                    bonded(pre) == bonded(post) + x && self.moved_only(pre, post, sender, att, None),
+                    || desc("unbond moved tokens other than the attached coins or did not decrease the bond by the amount"),
                 );
                 if before > 0 {
                     mon.stat("unbond_same_timestamp_accumulates");
@@ -533,14 +873,32 @@ impl Lair {
                 let (a, b) = (&pre.unb[&k], &post.unb[&k]);
                 let removed: Vec<&(u64, u128)> = a.iter().filter(|r| !b.contains(r)).collect();
                 let paid: u128 = removed.iter().map(|r| r.1).sum();
+                let att_d = coins_of(att, d);
                 let survivors_intact = b.iter().all(|r| a.contains(r));
                 mon.check("C08", "withdraw_pays_removed_records", survivors_intact && paid > 0, || desc("withdraw altered surviving records / paid nothing"));
                 mon.check(
                     "C08",
                     "withdraw_pays_removed_records",
-                    post.ubal[&k] == pre.ubal[&k] + paid && pre.cbal[d] == post.cbal[d] + paid,
-                    || desc(&format!("removed records sum {paid}, wallet {} -> {}, contract {} -> {}", pre.ubal[&k], post.ubal[&k], pre.cbal[d], post.cbal[d])),
+                    post.ubal[&k].checked_add(att_d) == pre.ubal[&k].checked_add(paid) && pre.cbal[d].checked_add(att_d) == post.cbal[d].checked_add(paid),
+                    || desc(&format!("removed records sum {paid}, attached {att_d}, wallet {} -> {}, contract {} -> {}", pre.ubal[&k], post.ubal[&k], pre.cbal[d], post.cbal[d])),
                 );
+                // exactly the matured records of the state before the message — whatever was attached to it
+                let due: Vec<&(u64, u128)> = a.iter().take(30).filter(|r| r.0 as u128 + pre.period as u128 <= now as u128).collect();
+                let due_sum: u128 = due.iter().map(|r| r.1).sum();
+                mon.check(
+                    "C08",
+                    "withdraw_pays_exactly_matured_records",
+                    removed == due && self.moved_only(pre, post, sender, att, Some((d, due_sum))),
+                    || {
+                        desc(&format!(
+                            "matured records {due:?} (sum {due_sum}), removed {removed:?}, attached {att:?}, wallet {} -> {}, contract {} -> {}",
+                            pre.ubal[&k], post.ubal[&k], pre.cbal[d], post.cbal[d]
+                        ))
+                    },
+                );
+                if att_d > 0 && att_d == due_sum {
+                    mon.stat("withdraw_with_attached_equal_to_the_payout");
+                }
                 // only after the unbonding period
                 let premature: Vec<_> = removed.iter().filter(|r| (r.0 as u128 + pre.period as u128) > now as u128).collect();
                 mon.check("C08", "only_after_period", premature.is_empty(), || desc(&format!("paid out before ts+period: {premature:?} now={now} period={}", pre.period)));
@@ -559,8 +917,57 @@ impl Lair {
                     mon.stat("withdraw_with_more_than_30_records");
                 }
             }
+            "config" | "send" => {
+                mon.check(
+                    "C08",
+                    "stray_coins_stay",
+                    self.moved_only(pre, post, sender, att, None) && pre.bonded == post.bonded && pre.unb == post.unb && pre.total_assets == post.total_assets,
+                    || desc("update_config / plain transfer moved tokens other than the coins it carried, or changed a bond or a record"),
+                );
+            }
             _ => {}
         }
+    }
+
+    /// a migration — accepted or refused, from whichever version — changes no bond, no unbonding record, no global
+    /// index, no configuration value and no balance (`pre` was read at the migration's own block time, before the
+    /// stored version was rewritten)
+    fn migrate_monitor(&self, mon: &mut Monitor, pre: &Snap, post: &Snap, ok: bool, legacy: bool, line: &str) {
+        let desc = |what: &str| format!("{what} at `{line}`");
+        let mut a = pre.clone();
+        let mut b = post.clone();
+        // the one field a storage migration from a 0.8.x layout may write: the distributor address it introduces
+        let fd_expected = if ok && legacy { String::new() } else { pre.fd.clone() };
+        mon.check("C08", "migrate_changes_nothing", post.fd == fd_expected, || desc(&format!("fee_distributor_addr {:?} -> {:?}", pre.fd, post.fd)));
+        if !self.fd_is_contract(post) || !self.fd_is_contract(pre) {
+            // without a fee distributor the Bonded query of an address with a bond is unreadable
+            a.bonded.clear();
+            b.bonded.clear();
+        }
+        a.fd.clear();
+        b.fd.clear();
+        mon.check("C08", "migrate_changes_nothing", a == b, || {
+            let mut diff = vec![];
+            if (a.period, a.rate, &a.owner, &a.assets) != (b.period, b.rate, &b.owner, &b.assets) {
+                diff.push(format!("config {}/{}/{}/{:?} -> {}/{}/{}/{:?}", a.period, a.rate, a.owner, a.assets, b.period, b.rate, b.owner, b.assets));
+            }
+            if a.bonded != b.bonded || a.total_bonded != b.total_bonded || a.total_assets != b.total_assets {
+                diff.push("bonds".into());
+            }
+            if a.unb != b.unb || a.pages != b.pages || a.unb_total != b.unb_total {
+                diff.push("unbonding records".into());
+            }
+            if (a.g_ts, a.g_weight, a.g_bonded, &a.g_assets) != (b.g_ts, b.g_weight, b.g_bonded, &b.g_assets) {
+                diff.push("global index".into());
+            }
+            if a.cbal != b.cbal || a.ubal != b.ubal {
+                diff.push("balances".into());
+            }
+            if a.wd != b.wd || a.weight != b.weight {
+                diff.push("Withdrawable / Weight answers".into());
+            }
+            desc(&format!("migration ({}) changed: {}", if ok { "accepted" } else { "refused" }, diff.join(", ")))
+        });
     }
 
     fn do_init(&mut self, ws: &[&str], mon: &mut Monitor) -> String {
@@ -584,11 +991,14 @@ impl Lair {
                 owner: kv.get("owner").map(|s| s.to_string()).unwrap_or_default(),
                 denoms: list("denoms"),
                 extra: list("extra"),
+                watch: list("watch"),
             },
             _ => return "bad-op".into(),
         };
         self.cfg = c.clone();
         self.now = c.start;
+        self.stray.clear();
+        self.given.clear();
         match self.build(&c) {
             Ok(()) => {
                 let s = self.observe();
@@ -613,6 +1023,11 @@ impl Lair {
     }
 }
 
+enum Call {
+    Exec(ExecuteMsg),
+    Send,
+}
+
 impl Engine for Lair {
     fn exec(&mut self, line: &str, mon: &mut Monitor) -> String {
         let ws: Vec<&str> = line.split_whitespace().collect();
@@ -634,44 +1049,89 @@ impl Engine for Lair {
         if !self.cfg.users.contains(&sender) {
             return "bad-op".into();
         }
-        self.set_time(height, t);
-        self.now = t;
-        let opv: Vec<&str> = std::iter::once(ws[0]).chain(ws[4..].iter().cloned()).collect();
+        let mut opv: Vec<&str> = std::iter::once(ws[0]).chain(ws[4..].iter().cloned()).collect();
+        // `+coins`: funds attached to a message that does not ask for any
+        let mut att: Vec<Coin> = vec![];
+        if matches!(opv[0], "unbond" | "withdraw" | "config") {
+            if let Some(f) = opv.last().and_then(|w| w.strip_prefix('+')) {
+                match parse_coins(f) {
+                    Some(c) => att = c,
+                    None => return "bad-op".into(),
+                }
+                opv.pop();
+            }
+        }
         let op = &opv[..];
+        // everything is parsed before the clock moves
         let lair = self.w.as_ref().unwrap().lair.clone();
         let sender_addr = Addr::unchecked(sender.clone());
-        // message + funds
-        let (msg, funds): (ExecuteMsg, Vec<Coin>) = match op {
+        enum Parsed {
+            Call(Call, Vec<Coin>),
+            Guard(bool),
+            Migrate(String, bool),
+        }
+        let parsed = match op {
             ["bond", a, x, f] => {
                 let x: u128 = match x.parse() {
                     Ok(x) => x,
                     Err(_) => return "bad-op".into(),
                 };
-                let mut funds = vec![];
-                if *f != "-" {
-                    for c in f.split(',') {
-                        match c.split_once(':').and_then(|(d, a)| a.parse::<u128>().ok().map(|a| coin(a, d))) {
-                            Some(c) => funds.push(c),
-                            None => return "bad-op".into(),
-                        }
+                let funds = if *f == "-" {
+                    vec![]
+                } else {
+                    match parse_coins(f) {
+                        Some(c) => c,
+                        None => return "bad-op".into(),
                     }
-                }
-                (ExecuteMsg::Bond { asset: Self::parse_asset(a, x) }, funds)
+                };
+                att = funds.clone();
+                Parsed::Call(Call::Exec(ExecuteMsg::Bond { asset: Self::parse_asset(a, x) }), funds)
             }
             ["unbond", a, x] => match x.parse::<u128>() {
-                Ok(x) => (ExecuteMsg::Unbond { asset: Self::parse_asset(a, x) }, vec![]),
+                Ok(x) => Parsed::Call(Call::Exec(ExecuteMsg::Unbond { asset: Self::parse_asset(a, x) }), att.clone()),
                 Err(_) => return "bad-op".into(),
             },
-            ["withdraw", d] => (ExecuteMsg::Withdraw { denom: d.to_string() }, vec![]),
+            ["withdraw", d] => Parsed::Call(Call::Exec(ExecuteMsg::Withdraw { denom: d.to_string() }), att.clone()),
             ["config", p, r] => {
                 let p = if *p == "-" { None } else { p.parse::<u64>().ok().map(Uint64::new) };
                 let r = if *r == "-" { None } else { r.parse::<u128>().ok().map(Decimal::raw) };
-                (ExecuteMsg::UpdateConfig { owner: None, unbonding_period: p, growth_rate: r, fee_distributor_addr: None }, vec![])
+                Parsed::Call(
+                    Call::Exec(ExecuteMsg::UpdateConfig { owner: None, unbonding_period: p, growth_rate: r, fee_distributor_addr: None }),
+                    att.clone(),
+                )
             }
-            ["setguard", g] => {
+            ["send", f] => match parse_coins(f) {
+                Some(c) => {
+                    att = c.clone();
+                    Parsed::Call(Call::Send, c)
+                }
+                None => return "bad-op".into(),
+            },
+            ["setguard", g] => Parsed::Guard(*g != "0"),
+            ["migrate", f] => {
+                let v = match f.strip_prefix("from=") {
+                    Some(v) => v,
+                    None => return "bad-op".into(),
+                };
+                let (v, legacy) = match v.strip_suffix('L') {
+                    Some(v) => (v, true),
+                    None => (v, false),
+                };
+                match parse_ver(v) {
+                    // the 0.8.x layout is only ever arranged for a version whose storage migration reads it
+                    Some(ver) if !(legacy && ver >= (0, 9, 0)) => Parsed::Migrate(v.to_string(), legacy),
+                    _ => return "bad-op".into(),
+                }
+            }
+            _ => return "bad-op".into(),
+        };
+        self.set_time(height, t);
+        self.now = t;
+        let (call, funds) = match parsed {
+            Parsed::Guard(real) => {
                 // environment op: executed by the owner whatever the sender column says
                 let w = self.w.as_ref().unwrap();
-                let target = if *g == "0" { w.stub_dist.to_string() } else { w.real_dist.to_string() };
+                let target = if real { w.real_dist.to_string() } else { w.stub_dist.to_string() };
                 let owner = Addr::unchecked(self.cfg.owner.clone());
                 let w = self.w.as_mut().unwrap();
                 let r = w.app.execute_contract(
@@ -689,13 +1149,62 @@ impl Engine for Lair {
                 self.prev = s;
                 return o;
             }
-            _ => return "bad-op".into(),
+            Parsed::Migrate(from, legacy) => {
+                // the state as the queries show it at this block time, before anything is touched
+                let pre = self.observe();
+                let config_item = self.raw_get(b"config");
+                if !self.arrange_release(&from, legacy) {
+                    return "bad-op".into();
+                }
+                let code = self.w.as_ref().unwrap().lair_code;
+                let out = {
+                    let w = self.w.as_mut().unwrap();
+                    guarded(|| w.app.migrate_contract(sender_addr, lair, &MigrateMsg {}, code))
+                };
+                let (tag, ok) = match &out {
+                    Outcome::Ok(_) => ("ok", true),
+                    Outcome::Err(e) => {
+                        let kinds = [
+                            ("Only admin", "err_not_admin"),
+                            ("Attempt to migrate to version", "err_invalid_version"),
+                            ("unknown field", "err_config_layout"),
+                            ("missing field", "err_config_layout"),
+                        ];
+                        let kind = kinds.iter().find(|(k, _)| e.contains(k)).map(|x| x.1).unwrap_or("err_other");
+                        mon.stat(&format!("migrate:{kind}"));
+                        ("err", false)
+                    }
+                    Outcome::Panic => {
+                        mon.stat("migrate:panic");
+                        ("panic", false)
+                    }
+                };
+                if ok {
+                    mon.stat(if legacy { "migrate:ok_from_0.8_layout" } else { "migrate:ok" });
+                } else if legacy {
+                    // the older layout was the harness's own preparation: a refused migration leaves the item as the
+                    // contract had written it
+                    if let Some(c) = config_item {
+                        self.raw_set(b"config", &c);
+                    }
+                }
+                let post = self.observe();
+                self.state_monitors(mon, &post, line);
+                self.migrate_monitor(mon, &pre, &post, ok, legacy, line);
+                let o = self.render(tag, &post);
+                self.prev = post;
+                return o;
+            }
+            Parsed::Call(c, f) => (c, f),
         };
         // pre-state at this block time (Withdrawable / Weight are time dependent)
         let pre = self.prev.clone();
         let out = {
             let w = self.w.as_mut().unwrap();
-            guarded(|| w.app.execute_contract(sender_addr, lair, &msg, &funds))
+            match &call {
+                Call::Exec(msg) => guarded(|| w.app.execute_contract(sender_addr, lair, msg, &funds)),
+                Call::Send => guarded(|| w.app.send_tokens(sender_addr, lair, &funds)),
+            }
         };
         let (tag, ok) = match &out {
             Outcome::Ok(_) => ("ok", true),
@@ -716,6 +1225,7 @@ impl Engine for Lair {
                     ("Cannot Mul", "err_mul_overflow"),
                     ("verflow", "err_overflow"),
                     ("time_factor", "err_time_factor"),
+                    ("Querier", "err_fee_distributor_query"),
                 ];
                 let kind = kinds.iter().find(|(k, _)| e.contains(k)).map(|x| x.1).unwrap_or("err_other");
                 mon.stat(&format!("{}:{}", op[0], kind));
@@ -733,10 +1243,19 @@ impl Engine for Lair {
                     mon.stat(&format!("amount_{}", mag_bucket(x)));
                 }
             }
+            // the stray ledger: what an accepted operation other than a bond carried
+            if op[0] != "bond" {
+                for c in &att {
+                    let e = self.stray.entry(c.denom.clone()).or_insert(0);
+                    *e = e.saturating_add(c.amount.u128());
+                    let e = self.given.entry((sender.clone(), c.denom.clone())).or_insert(0);
+                    *e = e.saturating_add(c.amount.u128());
+                }
+            }
         }
         let post = self.observe();
         self.state_monitors(mon, &post, line);
-        self.transition_monitors(mon, &pre, &post, ok, &sender, op, line);
+        self.transition_monitors(mon, &pre, &post, ok, &sender, op, &att, line);
         let o = self.render(tag, &post);
         self.prev = post;
         o
@@ -753,6 +1272,17 @@ impl Engine for Lair {
             o.extend_from_slice(&t[4..]);
             o.join(" ")
         })
+    }
+
+    /// the init line as written to the ops file carries the crate version read from the real contract's cw2 item
+    /// (`cur=`: the model's version gate compares against it)
+    fn recorded(&mut self, line: &str) -> String {
+        if line.starts_with("init") {
+            let kept: Vec<&str> = line.split_whitespace().filter(|w| !w.starts_with("cur=")).collect();
+            format!("{} cur={}.{}.{}", kept.join(" "), self.cur.0, self.cur.1, self.cur.2)
+        } else {
+            line.to_string()
+        }
     }
 }
 
@@ -796,6 +1326,7 @@ impl Lair {
                 bal,
                 users: users.clone(),
                 owner: "owner".into(),
+                watch: vec!["ghost".into()],
                 // whitelisted denoms and one that is not, in several shapes: the real ones; a pair differing only
                 // in case with a third case variant outside the whitelist; an IBC voucher and a token-factory
                 // denom whose last segment is the (not whitelisted) plain denom; prefixes of each other
@@ -819,7 +1350,7 @@ impl Lair {
             // generator-side copy (exec() rebuilds it from the line)
             self.cfg = c.clone();
             return Some(format!(
-                "init lair period={} rate={} genesis={} dur={} start={} bal={} users={} owner={} denoms={} extra={}",
+                "init lair period={} rate={} genesis={} dur={} start={} bal={} users={} owner={} denoms={} extra={} watch={}",
                 c.period,
                 c.rate,
                 c.genesis,
@@ -829,7 +1360,8 @@ impl Lair {
                 c.users.join(","),
                 c.owner,
                 c.denoms.join(","),
-                c.extra.join(",")
+                c.extra.join(","),
+                c.watch.join(",")
             ));
         }
         if step > self.n_ops {
@@ -906,7 +1438,8 @@ impl Lair {
                     format!("{user} bond {denom} {x} {d2}:{x}")
                 }
             };
-            return Some(head + &line);
+            let coins = if !line.contains(" bond ") && rng.chance(1, 3) { self.gen_coins(rng, &user, &denom, x) } else { String::new() };
+            return Some(head + &line + &coins);
         }
         if self.many_unbonds {
             // one user piles up > MAX_PAGE_LIMIT records, then withdraws
@@ -919,13 +1452,17 @@ impl Lair {
             } else if step == 37 {
                 self.now += period.min(1_000_000_000_000_000_000);
                 self.height += 1;
-                return Some(format!("{} {} {u} withdraw {d}", self.height, self.now));
+                let coins = if rng.chance(1, 2) { self.gen_coins(rng, u, d, 1000) } else { String::new() };
+                return Some(format!("{} {} {u} withdraw {d}{coins}", self.height, self.now));
             } else {
                 format!("{u} withdraw {d}")
             };
             return Some(head + &line);
         }
-        let line = match rng.below(100) {
+        // about one message in nine that does not ask for funds carries some (with the plain transfers: about one
+        // operation in twelve brings the lair coins without a bond)
+        let with_coins = rng.chance(1, 9);
+        let line = match rng.below(107) {
             0..=34 => {
                 let x = match rng.below(10) {
                     0 => self.prev.ubal.get(&(user.clone(), denom.clone())).cloned().unwrap_or(1),
@@ -961,7 +1498,8 @@ impl Lair {
                         5 => b.saturating_sub(1),
                         _ => rng.u128() % b + 1,
                     };
-                    format!("{u} unbond {d} {x}")
+                    let coins = if with_coins { self.gen_coins(rng, &u, &d, x) } else { String::new() };
+                    format!("{u} unbond {d} {x}{coins}")
                 }
             }
             65..=93 => {
@@ -985,10 +1523,18 @@ impl Lair {
                         format!("{u} unbond {d} {}", if rng.chance(1, 3) { b } else { rng.u128() % b + 1 })
                     }
                 } else if holders.is_empty() || rng.chance(1, 12) {
-                    format!("{user} withdraw {denom}")
+                    let coins = if with_coins { self.gen_coins(rng, &user, &denom, 0) } else { String::new() };
+                    format!("{user} withdraw {denom}{coins}")
                 } else {
                     let (u, d) = rng.pick(&holders).clone();
-                    format!("{u} withdraw {d}")
+                    // what this withdrawal is about to pay
+                    let due: u128 = self.prev.unb[&(u.clone(), d.clone())]
+                        .iter()
+                        .take(30)
+                        .filter(|r| r.0 as u128 + period as u128 <= self.now as u128)
+                        .fold(0u128, |a, r| a.saturating_add(r.1));
+                    let coins = if with_coins { self.gen_coins(rng, &u, &d, due) } else { String::new() };
+                    format!("{u} withdraw {d}{coins}")
                 }
             }
             94..=96 => {
@@ -1006,17 +1552,102 @@ impl Lair {
                     _ => (rng.u128() % (E18 + 1)).to_string(),
                 };
                 let who = if rng.chance(1, 5) { user.clone() } else { c.owner.clone() };
-                format!("{who} config {p} {r}")
+                let coins = if rng.chance(1, 3) { self.gen_coins(rng, &who, &denom, 0) } else { String::new() };
+                format!("{who} config {p} {r}{coins}")
             }
             97 | 98 => {
                 self.guard_off = true;
                 format!("{user} setguard 0")
             }
-            _ => {
+            99 => {
                 self.guard_off = false;
                 format!("{user} setguard 1")
             }
+            100..=102 => {
+                // a plain bank transfer to the lair
+                let hint = self.prev.unb.values().flat_map(|v| v.iter().map(|r| r.1)).next().unwrap_or(0);
+                let coins = self.gen_coins(rng, &user, &denom, hint);
+                format!("{user} send {}", &coins[2..])
+            }
+            _ => {
+                // the migrate entry point: stored versions on both sides of every threshold of contract.rs::migrate
+                // (the crate's own version; 0.9.0), far away ones and PRNG ones; below 0.9.0 on the current layout
+                // and on the 0.8.x layout the storage migration was written for; by the wasm admin, rarely by a user
+                let (ma, mi, pa) = self.cur;
+                let mut vs: Vec<(u64, u64, u64)> = vec![
+                    (ma, mi, pa),
+                    (ma, mi, pa + 1),
+                    (ma, mi + 1, 0),
+                    (ma + 1, 0, 0),
+                    (0, 9, 0),
+                    (0, 9, 1),
+                    (0, 8, 99),
+                    (0, 8, 0),
+                    (0, 8, 0),
+                    (0, 1, 0),
+                    (0, 0, 0),
+                    (rng.below(2), rng.below(12), rng.below(4)),
+                ];
+                if pa > 0 {
+                    vs.push((ma, mi, pa - 1));
+                    vs.push((ma, mi, pa - 1));
+                }
+                let v = *rng.pick(&vs);
+                let who = if rng.chance(1, 6) { user.clone() } else { c.owner.clone() };
+                let legacy = v < (0, 9, 0) && rng.chance(1, 2);
+                if legacy && who == c.owner {
+                    // the address is empty afterwards: the owner sets it again, sooner or later
+                    self.guard_off = true;
+                }
+                format!("{who} migrate from={}.{}.{}{}", v.0, v.1, v.2, if legacy { "L" } else { "" })
+            }
         };
         Some(head + &line)
+    }
+
+    /// ` +denom:amt[,denom:amt…]`: coins for a message that does not ask for any — the denom of the operation, the
+    /// other whitelisted denom, the non-whitelisted denom, or several coins; amounts 1 / small / `hint` (the record
+    /// about to be paid, the amount being unbonded) / the whole wallet / more than held / rarely zero
+    fn gen_coins(&mut self, rng: &mut Rng, user: &str, op_denom: &str, hint: u128) -> String {
+        let c = self.cfg.clone();
+        let other = if c.denoms[0] == op_denom { c.denoms[1].clone() } else { c.denoms[0].clone() };
+        let extra = c.extra[0].clone();
+        let denoms: Vec<String> = match rng.below(8) {
+            0..=2 => vec![op_denom.to_string()],
+            3 => vec![other],
+            4 | 5 => vec![extra],
+            6 => vec![op_denom.to_string(), extra],
+            _ => {
+                let mut v = c.all_denoms();
+                if rng.chance(1, 2) {
+                    v.reverse();
+                }
+                v
+            }
+        };
+        let coins: Vec<String> = denoms
+            .iter()
+            .map(|d| {
+                let held = self.prev.ubal.get(&(user.to_string(), d.clone())).cloned().unwrap_or(0);
+                let a = match rng.below(16) {
+                    0..=2 => 1,
+                    3..=6 => rng.range(2, 1000) as u128,
+                    7..=10 => {
+                        if hint > 0 {
+                            hint
+                        } else {
+                            rng.range(2, 1_000_000) as u128
+                        }
+                    }
+                    11 => held.saturating_add(1),
+                    12 => held,
+                    13 => rng.amount(if self.big { 123 } else { 100 }),
+                    14 => 0,
+                    _ => hint.saturating_add(1),
+                };
+                format!("{d}:{a}")
+            })
+            .collect();
+        format!(" +{}", coins.join(","))
     }
 }
